@@ -48,7 +48,7 @@ ASSUMPTIONS = [
     'a quoted k="v" value that contains the other quote kind is observed (must not raise) but not asserted',
 ]
 INTERPRETER_FLAGS = [[], ['-O'], [], ['-bb']]
-CONCURRENT = lambda case: case.get('kind') != 'starved'          # pure function of its arguments; see vlib/concurrent.py
+CONCURRENT = lambda case: case.get('kind') != 'twins' and (case.get('kind') != 'starved')          # pure function of its arguments; see vlib/concurrent.py
 SHARDS = {'quick': 4, 'thorough': 16}
 MIN_DISTINCT = {'quick': 20000, 'thorough': 1000000}
 
@@ -199,7 +199,23 @@ def eval_starved(ctx, case):
                  {'ordinary_call_after_starved_first_use': res2, 'want': want, 'starved_outcome': exc or res})
 
 
+def TWIN_FUNCS():
+    from oslo_utils import strutils
+    return {'mask_password': lambda v: strutils.mask_password(v),
+            'mask_password_secret': lambda v: strutils.mask_password(v, secret='###')}
+
+
+TWIN_TEXT_FUNCS = ['mask_password', 'mask_password_secret']
+TWIN_TEXTS = ['password=abc', "{'adminPass': 'Xy'}", 'Token: Yz9', 'nothing here', '<AdminPass>Sec</AdminPass>', 'X-Auth-Token: AbC',
+              'auth_token = "Q1w2"', "'secret_uuid' : 'AbCd-12'"]
+TWIN_NUM_FUNCS = ()
+TWIN_NUMBERS = ()
+
+
 def _evaluate_nomodes(ctx, case):
+    if case.get('kind') == 'twins':
+        from vlib import twins as _tw
+        return _tw.evaluate_case(ctx, case, TWIN_FUNCS())
     if case.get('kind') == 'starved':
         return eval_starved(ctx, case)
     from oslo_utils import strutils
@@ -711,6 +727,12 @@ def HAMMER(ctx):
     return out
 
 def run(ctx):
+    # ---- the same characters / the same number handed over as other objects, in several orders (vlib/twins.py)
+    from vlib import twins as _tw
+    for _i, _case in enumerate(_tw.make_cases(ctx.rng('twins'), ctx.pick(160, 8000), TWIN_TEXT_FUNCS, TWIN_TEXTS,
+                                              TWIN_NUM_FUNCS, TWIN_NUMBERS)):
+        if ctx.mine(_i):
+            evaluate(ctx, _case)
     from oslo_utils import strutils
     block = 0
 
